@@ -404,6 +404,22 @@ pub fn insert(s: &S, log: &mut Vec<String>) -> InsertStatement {
             "valuespanic" => {
                 q.values_panic(l.iter().map(expr).collect::<Vec<_>>());
             }
+            // the same calls fed by lazy iterators whose size_hint is inexact (the row is only known
+            // once it has been consumed)
+            "valuesit" => {
+                let before = q.clone();
+                match q.values(l.iter().map(expr).filter(|_| true)) {
+                    Ok(_) => log.push("ok".into()),
+                    Err(sea_query::error::Error::ColValNumMismatch { col_len, val_len }) => {
+                        log.push(format!("err({},{}){}", col_len, val_len, if q == before { "" } else { "!changed" }))
+                    }
+                    #[allow(unreachable_patterns)]
+                    Err(_) => log.push("err(?)".into()),
+                }
+            }
+            "valuespanicit" => {
+                q.values_panic(l.iter().map(expr).skip_while(|_| false));
+            }
             "valuesfrompanic" => {
                 q.values_from_panic(l.iter().map(|r| r.args().iter().map(expr).collect::<Vec<_>>()));
             }
